@@ -58,7 +58,7 @@ func (fr *frame) call(v ssa.Value, c *ssa.CallCommon, bc string, st *state, pos 
 	e := fr.e
 	sig := c.Signature()
 	if c.IsInvoke() {
-		name := "(" + c.Value.Type().String() + ")." + c.Method.Name()
+		name := invokeName(c)
 		if sp, ok := e.p.specs.Funcs[name]; ok {
 			args := []string{fr.val(c.Value)}
 			for _, a := range c.Args {
@@ -69,7 +69,7 @@ func (fr *frame) call(v ssa.Value, c *ssa.CallCommon, bc string, st *state, pos 
 		}
 		eff := e.p.callEffects(c, map[*ssa.Function]bool{})
 		e.noteHavoc(name, eff)
-		e.havocEffects(st, eff, fr.escapingLocals(c.Args))
+		fr.havocKeepingLocalMaps(st, eff, fr.escapingLocals(c.Args), nil)
 		fr.setResults(v, sig, fr.freshResults(c.Method.Name(), sig, st))
 		return
 	}
@@ -104,12 +104,12 @@ func (fr *frame) call(v ssa.Value, c *ssa.CallCommon, bc string, st *state, pos 
 		}
 		eff := e.p.effects(f, map[*ssa.Function]bool{})
 		e.noteHavoc(name, eff)
-		e.havocEffects(st, eff, fr.escapingLocals(c.Args))
+		fr.havocKeepingLocalMaps(st, eff, fr.escapingLocals(c.Args), nil)
 		fr.setResults(v, sig, fr.freshResults(f.Name(), sig, st))
 		return
 	case *ssa.MakeClosure:
 		eff := e.p.effects(f.Fn.(*ssa.Function), map[*ssa.Function]bool{})
-		e.havocEffects(st, eff, fr.escapingLocals(c.Args))
+		fr.havocKeepingLocalMaps(st, eff, fr.escapingLocals(c.Args), nil)
 		fr.setResults(v, sig, fr.freshResults("closure", sig, st))
 		return
 	}
@@ -129,7 +129,7 @@ func (fr *frame) call(v ssa.Value, c *ssa.CallCommon, bc string, st *state, pos 
 		}
 	}
 	e.noteHavoc("dynamic call "+c.Value.Name(), &effSet{all: true})
-	e.havocAll(st, fr.escapingLocals(c.Args))
+	fr.havocKeepingLocalMaps(st, &effSet{all: true, regs: map[string]bool{}}, fr.escapingLocals(c.Args), nil)
 	fr.setResults(v, sig, fr.freshResults("dyn", sig, st))
 }
 
@@ -215,7 +215,7 @@ func (fr *frame) contractCall(v ssa.Value, sp *FuncSpec, f *ssa.Function, sig *t
 	if sp.Pure {
 		esc = map[string]bool{}
 	}
-	e.havocEffects(st, eff, esc)
+	fr.havocKeepingLocalMaps(st, eff, esc, nil)
 	rs := fr.freshResults(shortName(name), sig, st)
 	env2 := fr.calleeEnv(sp, f, sig, args, st, invoke)
 	env2.pre = pre
@@ -483,4 +483,76 @@ func (fr *frame) appendBuiltin(v ssa.Value, c *ssa.CallCommon, bc string, st *st
 	}
 	st.regs[r] = nw
 	fr.setVal(v, app("mk-slice", base, newLen, ite(inPlace, app("s.cap", s), newCap)))
+}
+
+// invokeName names an interface method call "(pkg/path.Iface).Method" (aliases resolved to the declaring type).
+func invokeName(c *ssa.CallCommon) string {
+	t := types.Unalias(c.Value.Type())
+	if n, ok := t.(*types.Named); ok && n.Obj().Pkg() != nil {
+		return "(" + n.Obj().Pkg().Path() + "." + n.Obj().Name() + ")." + c.Method.Name()
+	}
+	return "(" + types.TypeString(t, func(p *types.Package) string { return p.Path() }) + ")." + c.Method.Name()
+}
+
+// localMaps: maps made in this function whose handle never escapes (only looked up, updated, ranged, deleted from,
+// measured). No callee can reach them, so their contents survive every call.
+func (fr *frame) localMapsOf() map[ssa.Value]*types.Map {
+	if fr.localMaps != nil {
+		return fr.localMaps
+	}
+	fr.localMaps = map[ssa.Value]*types.Map{}
+	for _, b := range fr.fn.Blocks {
+		for _, ins := range b.Instrs {
+			mm, ok := ins.(*ssa.MakeMap)
+			if !ok || mm.Referrers() == nil {
+				continue
+			}
+			escapes := false
+			for _, r := range *mm.Referrers() {
+				switch u := r.(type) {
+				case *ssa.Lookup, *ssa.Range, *ssa.DebugRef:
+				case *ssa.MapUpdate:
+					if u.Key == ssa.Value(mm) || u.Value == ssa.Value(mm) {
+						escapes = true
+					}
+				case *ssa.Call:
+					if bi, ok := u.Call.Value.(*ssa.Builtin); ok && (bi.Name() == "len" || bi.Name() == "delete") {
+						continue
+					}
+					escapes = true
+				default:
+					escapes = true
+				}
+			}
+			if !escapes {
+				fr.localMaps[mm] = mm.Type().Underlying().(*types.Map)
+			}
+		}
+	}
+	return fr.localMaps
+}
+
+// havocKeepingLocalMaps havocs the callee's effects but re-asserts the contents of non-escaping local maps
+// (except those in `written`, which the havocked code itself updates).
+func (fr *frame) havocKeepingLocalMaps(st *state, eff *effSet, esc map[string]bool, written map[ssa.Value]bool) {
+	e := fr.e
+	type snap struct{ h, dom, val, ln, domR, valR, lnR string }
+	var snaps []snap
+	for mv, mt := range fr.localMapsOf() {
+		h, ok := fr.vals[mv]
+		if !ok || written[mv] {
+			continue
+		}
+		domR, valR, lnR := e.mapRegions(mt)
+		if !eff.all && !eff.regs[domR] && !eff.regs[valR] && !eff.regs[lnR] {
+			continue
+		}
+		snaps = append(snaps, snap{h, app("select", e.get(st, domR), h), app("select", e.get(st, valR), h), app("select", e.get(st, lnR), h), domR, valR, lnR})
+	}
+	e.havocEffects(st, eff, esc)
+	for _, s := range snaps {
+		e.assume(eq(app("select", e.get(st, s.domR), s.h), s.dom))
+		e.assume(eq(app("select", e.get(st, s.valR), s.h), s.val))
+		e.assume(eq(app("select", e.get(st, s.lnR), s.h), s.ln))
+	}
 }
